@@ -122,6 +122,21 @@ def run(ctx):
                 s.nontrivial.add((desc, 0, "malformed"))
                 if st == "ok":
                     s.violate(inp, "rejected", f"{len(val)} blocks accepted", "a malformed IPS file (missing header / truncated record / no EOF) is accepted")
+        # the same (unchanged) file read again, with another delta: every read starts from the file's own offsets
+        for (path, delta, f, desc), sp in list(zip(meta, spec))[:60 if tier == "quick" else 600]:
+            if not sp.startswith("some"):
+                continue
+            recs = parse_blocks(sp[5:] if len(sp) > 5 else "-")
+            for d2 in (rng.choice(deltas), delta, 0):
+                st, val = real_read(path, d2)
+                s.cases += 1
+                s.count("re-read")
+                exp = [(a + d2, d) for a, d in recs]
+                if st != "ok" or val != exp:
+                    s.violate({"file_len": len(f), "kind": desc, "first_delta": delta, "delta": d2, "file_head": f[:48].hex(), "note": "the same file was read before in this process"},
+                              [(a, len(d)) for a, d in exp][:4], (st, [(a, len(d)) for a, d in (val or [])][:4]),
+                              "a patch file included again (same process, unchanged file) does not yield its records shifted by that include's delta")
+                    break
         s.sample({"file": files[0][0][:40].hex(), "kind": files[0][1], "model": model[0][:80]})
 
         # the directive inside a program: surroundings unaffected, records handed over in order
@@ -139,17 +154,21 @@ def run(ctx):
                               "*=0x008000\nlda #0x12\n@=0x008100\nhere:\njmp.w here\n", "*=0x028000\n.db 5\n@=0x038123\n.dw 0x1234\n"])
             post = rng.choice([".db 3\nl:\n.dw l\n", "nop\nl:\n", "l:\n.dl l\n*=0x028000\n.db 7\n"])
             dtxt = str(delta) if delta >= 0 else f"-{-delta}"
-            with_ = impl.assemble(pre + f".include_ips 'inc.ips', {dtxt}\n" + post, cwd=tmp)
+            twice = i % 3 == 0
+            delta2 = rng.choice(deltas)
+            d2txt = str(delta2) if delta2 >= 0 else f"-{-delta2}"
+            second = f".include_ips 'inc.ips', {d2txt}\n" if twice else ""
+            with_ = impl.assemble(pre + f".include_ips 'inc.ips', {dtxt}\n" + second + post, cwd=tmp)
             without = impl.assemble(pre + post, cwd=tmp)
             s2.cases += 1
             s2.nontrivial.add((pre, post, len(recs)))
             if with_["status"] != "ok" or without["status"] != "ok":
-                if any(a + delta < 0 for a, _ in recs):
+                if any(a + delta < 0 for a, _ in recs) or (twice and any(a + delta2 < 0 for a, _ in recs)):
                     continue
                 s2.violate({"pre": pre, "post": post, "delta": delta}, "assembled", with_["status"], "program with a well-formed .include_ips is rejected")
                 continue
             own = impl.flatten(without["blocks"])
-            exp_recs = [(a + delta, d) for a, d in recs]
+            exp_recs = [(a + delta, d) for a, d in recs] + ([(a + delta2, d) for a, d in recs] if twice else [])
             allb = with_["blocks"]
             # the included blocks must appear, in order, as a subsequence; removing them leaves the program's own writes
             rest, j = [], 0
